@@ -35,7 +35,7 @@ def run(ctx):
     tf = common.translator_failures(ctx, NEEDED)
     if tf:
         proof["problems"].append("translator could not translate: %s" % tf)
-    b = c01.builders(ctx)[: (30 if ctx.tier == "quick" else 400)]
+    b = c01.builders(ctx)[: (150 if ctx.tier == "quick" else 1500)]
     b += [("namespace", c02.ns_history) for _ in range(14 if ctx.tier == "quick" else 300)]
     b += [("rdb-partition", part_history) for _ in range(6 if ctx.tier == "quick" else 100)]
     rule = ("same generators as C01 and C02 plus histories on a partition of a two-partition RDB disk; every dumped image is judged by the extracted decoder "
